@@ -279,7 +279,7 @@ def native_history(steps, keep=False):
                 before = tree_stat(d)
                 pre = snapshot_dir(d)
                 tlog = os.path.join(base, os.path.basename(d) + '.strace')
-                pr = subprocess.run(['strace', '-f', '-e', 'trace=' + TRACED, '-o', tlog] + cmd, cwd=cwd,
+                pr = subprocess.run(['strace', '-f', '-y', '-e', 'trace=' + TRACED, '-o', tlog] + cmd, cwd=cwd,
                                     stdout=subprocess.PIPE, stderr=subprocess.PIPE, timeout=120)
                 after = tree_stat(d)
                 eff = parse_strace(tlog, cwd, d)
@@ -297,6 +297,7 @@ def native_history(steps, keep=False):
 
 TRACED = 'openat,open,creat,unlink,unlinkat,mkdir,mkdirat,rename,renameat,renameat2,rmdir,truncate,link,linkat,symlink,symlinkat'
 _CALL = re.compile(r'^\d+\s+(\w+)\((.*)\)\s+= (-?\d+)')
+_DIRFD = re.compile(r'^\d+<([^>]+)>')
 _STR = re.compile(r'"((?:[^"\\]|\\.)*)"')
 
 
@@ -325,8 +326,11 @@ def parse_strace(path, cwd, root):
             op = 'write'
         else:
             continue
+        # *at calls relative to a directory descriptor (std::fs::remove_dir_all walks that way): strace -y prints its path
+        dm = _DIRFD.match(args)
+        basedir = dm.group(1) if dm else cwd
         for sp in (strs if op == 'rename' else strs[:1]):
-            ap = os.path.normpath(os.path.join(cwd, sp))
+            ap = os.path.normpath(os.path.join(basedir, sp))
             if ap.startswith('/dev/') or ap.startswith('/proc/'):
                 continue
             rel = os.path.relpath(ap, root) if (ap + '/').startswith(root + '/') else ap
